@@ -564,6 +564,86 @@ func checkC13(r *Result) {
 		}, func(v map[string]bool) bool { return v["dustStored"] && (v["burned"] || v["noWholeUnit"]) }, "noWholeUnit")
 	}
 
+	// ---- the books of a dispute: the amounts stored into the dispute record have the specified forms
+	{
+		tmb := NewTermer()
+		leb := &linEval{Atomise: func(t *Term) string {
+			for _, f := range []string{"FeeTotal", "SlashAmount", "BurnAmount"} {
+				if strings.HasPrefix(t.Op, "field:x/dispute/types.Dispute."+f) {
+					return f
+				}
+			}
+			if t.Op == "ext:0" && t.Contains("Keeper).GetDisputeFee") {
+				return "disputeFee"
+			}
+			inner := t
+			if strings.HasPrefix(t.Op, "after-store:") && len(t.Args) == 1 {
+				inner = t.Args[0] // the (capped) amount as it stands after the handler's own assignments
+			}
+			if strings.HasSuffix(inner.Op, "Coin.Amount") && (inner.Contains("MsgAddFeeToDispute") || inner.Contains("MsgProposeDispute")) {
+				return "paid"
+			}
+			return ""
+		}}
+		storesOf := func(fn *ssa.Function, field string) []*Poly {
+			var out []*Poly
+			for _, b := range fn.Blocks {
+				for _, in := range b.Instrs {
+					if st, ok := in.(*ssa.Store); ok {
+						if fa, ok := st.Addr.(*ssa.FieldAddr); ok && fieldName(fa.X.Type(), fa.Field) == "x/dispute/types.Dispute."+field {
+							out = append(out, leb.Eval(tmb.Of(st.Val)))
+						}
+					}
+				}
+			}
+			return out
+		}
+		one := func(ps []*Poly) string {
+			if len(ps) != 1 {
+				return fmt.Sprintf("%d stores", len(ps))
+			}
+			return ps[0].String()
+		}
+		if fn := need("(x/dispute/keeper.Keeper).SetNewDispute"); fn != nil {
+			sl, bu := one(storesOf(fn, "SlashAmount")), one(storesOf(fn, "BurnAmount"))
+			r.check(sl == "disputeFee^1" && bu == "1/20 * disputeFee^1", "BURN-HALF", "(x/dispute/keeper.Keeper).SetNewDispute # the amount at stake is the dispute fee and the burn amount is a twentieth of it", P.Pos(fn.Pos()), "SlashAmount = "+sl+" ; BurnAmount = "+bu)
+		}
+		if fn := need("(x/dispute/keeper.msgServer).AddFeeToDispute"); fn != nil {
+			ft := one(storesOf(fn, "FeeTotal"))
+			r.check(ft == "FeeTotal^1 + paid^1" || ft == "paid^1 + FeeTotal^1", "PAY-RECORD", "(x/dispute/keeper.msgServer).AddFeeToDispute # the fee total grows by the amount taken", P.Pos(fn.Pos()), "FeeTotal = "+ft)
+		}
+		if fn := need("(x/dispute/keeper.Keeper).ExecuteVote"); fn != nil {
+			sl := one(storesOf(fn, "SlashAmount"))
+			r.check(sl == "-1 * BurnAmount^1 + 2 * SlashAmount^1" || sl == "2 * SlashAmount^1 + -1 * BurnAmount^1" || sl == "2 * SlashAmount^1 - BurnAmount^1", "BURN-HALF", "(x/dispute/keeper.Keeper).ExecuteVote # a reporter who wins gets the stake back plus the fees that are not burned (2 x SlashAmount - BurnAmount)", P.Pos(fn.Pos()), "returned = "+sl)
+		}
+		if fn := need("(x/dispute/keeper.msgServer).WithdrawFeeRefund"); fn != nil {
+			for _, cs := range P.CallSitesIn(fn) {
+				if cs.Callee == "(x/dispute/keeper.Keeper).RewardReporterBondToFeePayers" {
+					tot, bond := leb.Eval(tmb.Of(Arg(cs.Instr, 3))).String(), leb.Eval(tmb.Of(Arg(cs.Instr, 4))).String()
+					r.check(tot == "FeeTotal^1" && bond == "SlashAmount^1", "PRO-RATA", "(x/dispute/keeper.msgServer).WithdrawFeeRefund # the bond reward divides the slashed stake by the total of fees", P.Pos(cs.Pos()), "total: "+tot+" ; bond: "+bond)
+				}
+			}
+		}
+		// the six accumulators of CalculateReward are sums over the rounds
+		if fn := need("(x/dispute/keeper.Keeper).CalculateReward"); fn != nil {
+			n, okAll, det := 0, true, ""
+			for _, b := range fn.Blocks {
+				for _, in := range b.Instrs {
+					ph, ok := in.(*ssa.Phi)
+					if !ok || !strings.HasSuffix(ph.Type().String(), "math.Int") || !isLoopHeader(fn, b) {
+						continue
+					}
+					n++
+					adds, bases := sumWeb(ph)
+					if len(adds) == 0 || len(bases) != 1 || bases[0].Op != "call:cosmossdk.io/math.ZeroInt" {
+						okAll, det = false, fmt.Sprintf("%s: %d addends, %d bases", ph.Comment, len(adds), len(bases))
+					}
+				}
+			}
+			r.check(okAll && n == 6, "ALL-ROUNDS", "(x/dispute/keeper.Keeper).CalculateReward # the three own powers and the three group totals are sums over the rounds, starting at zero", P.Pos(fn.Pos()), fmt.Sprintf("%d loop-carried amounts %s", n, det))
+		}
+	}
+
 	// ---- PRO-RATA
 	checkProRata(r)
 
@@ -866,4 +946,13 @@ func requireAtSuccess(r *Result, rule string, fn *ssa.Function, what string, ato
 		}
 	}
 	r.check(okAll && n > 0, rule, FuncName(fn)+" # "+what, r.P.Pos(fn.Pos()), fmt.Sprintf("%d success returns %s", n, det))
+}
+
+func isLoopHeader(fn *ssa.Function, b *ssa.BasicBlock) bool {
+	for _, h := range loopHeaders(fn) {
+		if h == b {
+			return true
+		}
+	}
+	return false
 }
